@@ -98,8 +98,10 @@ def run(prog, tier) -> Result:
             u1, u2 = c.unit("u1", "T"), c.unit("u2", "T")
             f, off = c.num("f", "frac"), c.num("o", "dec")
             me = ObjV(tc, "conv")
-            if kind == "mapping":
+            if kind in ("mapping", "read-only mapping"):
                 tbl = DictV([(TupleV([u1, u2]), TupleV([f, off]))])
+                if kind == "read-only mapping":
+                    tbl.readonly = True        # a Mapping that is not a MutableMapping (MappingProxyType, user class)
             elif kind == "list":
                 tbl = ListV([TupleV([u1, u2, f, off])])
             else:
@@ -124,7 +126,7 @@ def run(prog, tier) -> Result:
                 v.items[0].rf.equals(RF.atom(("k", "f"))) and v.items[1].rf.equals(RF.atom(("k", "o")))
             return None if ok else ("table layout differs from ((from, to) -> (factor, offset))", f"{k!r} -> {v!r}")
         return judge
-    for kind in ("mapping", "list", "other"):
+    for kind in ("mapping", "read-only mapping", "list", "other"):
         cr.run("R14.5", init, f"conv_table as {kind}", setup_init(kind), judge_init(kind))
 
     # R14.4 fallback order and error class for reference-less types (temperature-like)
@@ -234,5 +236,5 @@ def run(prog, tier) -> Result:
     res.require("R14.2", 3)
     res.require("R14.3", 20)
     res.require("R14.4", 7)
-    res.require("R14.5", 3)
+    res.require("R14.5", 4)
     return res
